@@ -102,4 +102,10 @@ def astep (g : Option Grant) : AOp → Option Grant × Bool
         | none => (some gr, false)
         | some g' => (g', true)
 
+/-- one precompile call naming several message types: every named slot takes the same step; the call fails as a
+    whole, and nothing changes, if the step fails for one of them -/
+def astepMany (gs : List (Option Grant)) (op : AOp) : List (Option Grant) × Bool :=
+  let rs := gs.map (fun g => astep g op)
+  if rs.all (·.2) then (rs.map (·.1), true) else (gs, false)
+
 end Haqq.Authz
